@@ -66,8 +66,7 @@ def byteOffsets : List Char → Nat → List (Nat × Char)
 def splitLines (s : List Char) : List (List Char) :=
   let rec go : List Char → List Char → List (List Char)
     | [], cur => [cur.reverse]
-    | '\n' :: r, cur => cur.reverse :: go r []
-    | ch :: r, cur => go r (ch :: cur)
+    | ch :: r, cur => if ch = '\n' then cur.reverse :: go r [] else go r (ch :: cur)
   go s []
 
 def Canvas.drawLine (c : Canvas) (x y : Int) (cells : List (Nat × Char)) : Except Crash Canvas :=
